@@ -81,7 +81,10 @@ SkipNodes(c) ==
                  \* attributed expressions in argument / element position (paths that rewrite the
                  \* last argument of a call do not go through format_expr)
                  "closurearg_if", "closurearg_block", "closurearg_loop", "callarg", "lastarg",
-                 "tupleelem", "arrayelem", "binop", "retval", "fn_inner", "block_inner"}
+                 "tupleelem", "arrayelem", "binop", "retval", "fn_inner", "block_inner",
+                 \* a parenthesised expression inside parentheses (remove_nested_parens must not
+                 \* drop it together with its attribute: fix 8246e5f)
+                 "innerparen"}
 Spellings == {"skip", "depr", "cfg_skip", "cfg_depr", "cfg_cfg_skip", "cfg_multi",
               \* the skip attribute next to other attributes of the same node: one whose arguments
               \* are not meta-item syntax (before / after it), a doc comment before it
